@@ -32,6 +32,7 @@ type Cfg struct {
 	Sync     bool   `json:"sync"`
 	Detect   bool   `json:"detect"` // conflict detection
 	MemSize  int    `json:"memsize"` // memtable size in bytes (default 8 MiB)
+	Hot      int    `json:"hot"`     // > 0: that many hot value-log buckets, a key turns hot after 2 writes
 }
 
 type Op struct {
@@ -232,6 +233,11 @@ func (r *Runner) opts() *NoKV.Options {
 	o.EnableWALWatchdog = false
 	o.HotRingEnabled = false
 	o.WriteHotKeyLimit = 0
+	if r.Cfg.Hot > 0 { // hot/cold value-log buckets: a key moves to a hot bucket once written twice
+		o.HotRingEnabled = true
+		o.ValueLogHotBucketCount = r.Cfg.Hot
+		o.ValueLogHotKeyThreshold = 2
+	}
 	o.SyncWrites = r.Cfg.Sync
 	o.DetectConflicts = r.Cfg.Detect
 	o.NumCompactors = 1
